@@ -68,7 +68,7 @@ class Engine:
         if z3.is_false(cond):
             return False
         i = len(self.trace)
-        if i >= self.max_depth:
+        if i >= 50 * self.max_depth:
             raise Abort('max branch depth')
         if i < len(self.prefix):
             d = self.prefix[i]
@@ -573,7 +573,9 @@ def rebind(f, **globs):
     import types as _t
     g = dict(f.__globals__)
     g.update(globs)
-    return _t.FunctionType(f.__code__, g, f.__name__, f.__defaults__, f.__closure__)
+    h = _t.FunctionType(f.__code__, g, f.__name__, f.__defaults__, f.__closure__)
+    h.__kwdefaults__ = f.__kwdefaults__
+    return h
 
 
 class SymDict(dict):
